@@ -96,6 +96,24 @@ theorem plan_restore_independent {lock : Nat} {l0 P Q : List Ltx} {GP GQ : Ltx} 
     (hcQ : compact lock Q = .ok GQ) (hdQ : decodeDb lock GQ = .ok imgQ) : imgP.Same imgQ :=
   (plan_restore_eq_truth hP hok hg hcP hdP).trans (plan_restore_eq_truth hQ hok hg hcQ hdQ).symm
 
+/-- **Compaction associativity (levels of levels), observable form.**  Compacting
+    compacted segments (`P`: any chain of compactions of consecutive — even
+    overlapping — runs of the L0 files `l0`) restores to the same database, of the
+    same size, as compacting the flattened list `l0` directly.
+    Partial: equality is stated on what a restore observes (size and every page
+    image); that the two files also agree on *which* pages are stored explicitly
+    (absent vs. explicit zero page) and on `ts`/`minTx`/`maxTx` is not mechanised —
+    the engine's composition oracle checks exactly that on every real file. -/
+theorem compact_assoc_partial {lock : Nat} {l0 P : List Ltx} {G F : Ltx}
+    (hP : PlanChain lock [] l0 P) (hok : ∀ x ∈ l0, PagesOk lock x) (hg : GrowthComplete lock l0)
+    (hcP : compact lock P = .ok G) (hcF : compact lock l0 = .ok F) :
+    (Db.empty.apply G).Same (Db.empty.apply F) ∧ G.commit = F.commit := by
+  have h1 := compact_equiv_core hcP (planChain_pagesOk hP (by simpa using hok)) (plan_growthComplete hP hok hg)
+    Db.empty (empty_lock_zero lock)
+  have h2 := compact_equiv_core hcF hok hg Db.empty (empty_lock_zero lock)
+  have h := h1.symm.trans ((plan_reaches_truth hP hok hg).trans h2)
+  exact ⟨h, h.1⟩
+
 /-- Non-vacuity of `PlanChain`: L0 files 1..3; plan A = [L1(1..2), L0(3)], plan B = [snapshot(1..3)]. -/
 example : PlanChain 100 [] [⟨1, 1, 2, 10, [(1, 5), (2, 6)]⟩, ⟨2, 2, 2, 20, [(2, 7)]⟩, ⟨3, 3, 3, 30, [(3, 8)]⟩]
     [⟨1, 2, 2, 20, [(1, 5), (2, 7)]⟩, ⟨3, 3, 3, 30, [(3, 8)]⟩] :=
